@@ -801,8 +801,14 @@ func (c *Client) Do(ctx context.Context, q Query) (err error) {
 		// Handling query cancellation if needed.
 		if (ctx.Err() != nil || recvFailed.Load()) && !gotException.Load() {
 			verifPoint("cancel:before-cancel")
-			err := multierr.Append(ctx.Err(), c.cancelQuery())
-			return errors.Wrap(err, "canceled")
+			cancelErr := c.cancelQuery()
+			ctxErr := ctx.Err()
+			if ctxErr == nil {
+				// Receiver failed and group context is not canceled yet, error
+				// of receiver should be reported, not this one.
+				return nil
+			}
+			return errors.Wrap(multierr.Append(ctxErr, cancelErr), "canceled")
 		}
 		return nil
 	})
